@@ -54,7 +54,7 @@ Case(id, tree, pats) ==
 
 (* characters that are special in shell globs but not here: ? [ ] \ stand   *)
 (* for themselves                                                           *)
-MetaAlphabet == {A, 63, 91, 93, 92}
+MetaAlphabet == {A, 65, 63, 91, 93, 92}      \* 65 = 'A': matching is case-sensitive
 MetaNames == StringsUpTo(MetaAlphabet, 1, 3)
 MetaTree == {[path |-> <<n>>, dir |-> FALSE] : n \in MetaNames}
 MetaPats == SetToSeq({<<p>> : p \in {q \in StringsUpTo(MetaAlphabet \cup {STAR}, 1, IF Tier = "quick" THEN 3 ELSE 4) : ~AllStar(q) \/ Len(q) = 1}})
